@@ -587,6 +587,12 @@ package sizes
 //@   modifies *n
 //@   ensures result == nil ==> *n >= 0 && *n <= 2
 //@   ensures result != nil ==> *n == old(*n)
+// the documented spellings, each with its own meaning (C08: none cites
+// nothing, hash cites ids only, full cites ids with descriptions)
+//@   ensures s == "none" ==> result == nil && *n == 0
+//@   ensures s == "hash" || s == "sha-1" || s == "sha1" ==> result == nil && *n == 1
+//@   ensures s == "full" ==> result == nil && *n == 2
+//@   ensures s != "none" && s != "hash" && s != "sha-1" && s != "sha1" && s != "full" ==> result != nil
 
 // ---------------------------------------------------------------- output.go: option values (C14)
 // Each Set overwrites the variable with a value that does not depend on the
